@@ -713,11 +713,35 @@ def rule_R19p(text, log):
         text = text[:rs] + after + text[mm.end():]
 
 
-RULES = {'R3c': rule_R3c, 'R19p': rule_R19p, 'R4e': rule_R4e, 'R4f': rule_R4f, 'R19': rule_R19, 'R9b': rule_R9b, 'R18': rule_R18, 'R4b': rule_R4b, 'R4c': rule_R4c, 'R4d': rule_R4d, 'R9c': rule_R9c, 'R16': rule_R16, 'R5': rule_R5, 'R15': rule_R15, 'R6bp': rule_R6bp,
+def rule_R9(text, log):
+    """(0..N).filter_map(|n| E).collect()   [collecting Option<Result<T>> items into Result<Vec<T>>]  ==>
+       { let mut out__ = Vec::new(); let mut err__ = None; let mut n = 0; while n < N && err__.is_none() { match E { Some(Ok(x__)) => { out__.push(x__); } Some(Err(e__)) => { err__ = Some(e__); } None => {} } n += 1; } match err__ { Some(e__) => Err(e__), None => Ok(out__) } }
+    (std: filter_map drops None, collect into Result stops at the first Err)"""
+    while True:
+        m = mask(text)
+        hit = None
+        for c in find_closure_calls(text, 'filter_map'):
+            mm = re.match(r'\s*\.\s*collect\s*(::\s*<\s*Result\s*<\s*Vec\s*<\s*_\s*>\s*>\s*>\s*)?\(\s*\)', m[c['close'] + 1:])
+            recv = text[c['recv_start']:c['dot']].strip()
+            mr = re.fullmatch(r'\(\s*0\s*\.\.\s*(\w+)\s*\)', recv)
+            if mm and mr and re.fullmatch(IDENT, c['params']):
+                hit = (c, c['close'] + 1 + mm.end(), mr.group(1))
+                break
+        if not hit:
+            return text
+        c, end, n_ = hit
+        v = c['params']
+        after = ('{ let mut out__ = Vec::new(); let mut err__ = None; let mut %s = 0; while %s < %s && err__.is_none() { match %s { Some(Ok(x__)) => { out__.push(x__); } Some(Err(e__)) => { err__ = Some(e__); } None => {} } %s += 1; } match err__ { Some(e__) => Err(e__), None => Ok(out__) } }'
+                 % (v, v, n_, c['body'], v))
+        log.append(dict(rule='R9', before=text[c['recv_start']:end][:200], after=after[:260]))
+        text = text[:c['recv_start']] + after + text[end:]
+
+
+RULES = {'R9': rule_R9, 'R3c': rule_R3c, 'R19p': rule_R19p, 'R4e': rule_R4e, 'R4f': rule_R4f, 'R19': rule_R19, 'R9b': rule_R9b, 'R18': rule_R18, 'R4b': rule_R4b, 'R4c': rule_R4c, 'R4d': rule_R4d, 'R9c': rule_R9c, 'R16': rule_R16, 'R5': rule_R5, 'R15': rule_R15, 'R6bp': rule_R6bp,
     'R1': rule_R1, 'R2': rule_R2, 'R3': rule_R3, 'R3b': rule_R3b, 'R4': rule_R4,
     'R6': rule_R6, 'R6b': rule_R6b, 'R6c': rule_R6c,
 }
-DEFAULT_ORDER = ['R15', 'R18', 'R19', 'R19p', 'R3c', 'R6c', 'R9b', 'R1', 'R2', 'R3', 'R3b', 'R6', 'R6b', 'R6bp', 'R4']
+DEFAULT_ORDER = ['R15', 'R18', 'R19', 'R19p', 'R3c', 'R9', 'R6c', 'R9b', 'R1', 'R2', 'R3', 'R3b', 'R6', 'R6b', 'R6bp', 'R4']
 
 
 def apply_rules(text, log, rules=None):
